@@ -101,6 +101,32 @@ pub fn bg_progress_count() -> u64 {
 	BG_PROGRESS.with(|c| c.get())
 }
 
+thread_local! {
+	static CALLBACKS: std::cell::RefCell<Vec<(&'static str, Box<dyn FnOnce()>)>> = const { std::cell::RefCell::new(Vec::new()) };
+}
+
+/// Arms a one-shot callback that the calling thread runs the next time it
+/// passes the named point (used to place another actor's step at an exact
+/// position inside a synchronous call such as opening a store).
+pub fn set_callback(id: &'static str, f: Box<dyn FnOnce()>) {
+	CALLBACKS.with(|c| c.borrow_mut().push((id, f)));
+}
+
+/// Drops every armed callback of this thread.
+pub fn clear_callbacks() {
+	CALLBACKS.with(|c| c.borrow_mut().clear());
+}
+
+pub(crate) fn callback_point(id: &'static str) {
+	let f = CALLBACKS.with(|c| {
+		let mut v = c.borrow_mut();
+		v.iter().position(|(i, _)| *i == id).map(|p| v.remove(p).1)
+	});
+	if let Some(f) = f {
+		f();
+	}
+}
+
 /// Process-wide event counters the harness reads to show that an exploration
 /// really exercised value-log reads and file removal.
 pub static VLOG_POINTER_READS: std::sync::atomic::AtomicU64 = std::sync::atomic::AtomicU64::new(0);
